@@ -79,6 +79,10 @@ func LogErfc(x float64) float64 {
 
   if x*x < 2.4607833005759251e-02 {
     return logErfc0(x)
+  } else if x > 1e8 {
+    // erfc(x) = exp(-x^2)/(x sqrt(pi)) (1 - 1/(2x^2) + ...); the rational
+    // approximation below overflows for x > 2e51
+    return -x*x - math.Log(x*M_SQRTPI)
   } else if x > 8.0 {
     return logErfc8(x)
   } else {
